@@ -325,19 +325,44 @@ def edge_instances(rng):
         (f"{A}... {B}", [[n1, n1, n2]], {A: (n1, -n1)}, "size_not_a_positive_integer"),
         (f"({A} {B}) {C}", [[n1 * n2, n3]], {A: n1 + 0.5}, "size_not_a_positive_integer"),
         (f"({A} {B}) {C}", [[n1 * n2, n3]], {A: 0}, "size_not_a_positive_integer"),
+        # a concatenation whose parts are unknown but at least 1 each: a dimension shorter than the number of parts has no assignment
+        (f"({A} + {B}) {C}", [[1, n2]], {}, "concatenation_shorter_than_its_parts"),
+        (f"{C} ({A} + {B} + {D})", [[n2, 2]], {}, "concatenation_shorter_than_its_parts"),
+        (f"({A} + {B} + {D}) {C}", [[n1 + 1, n2]], {A: n1}, "concatenation_shorter_than_its_parts"),
+        # products in which an axis occurs several times: no positive integers satisfy them (checked below by trying every candidate)
+        (f"({A} {A})", [[8]], {}, "no_integer_root"),
+        (f"({A} {A}) {B}", [[8, n2]], {}, "no_integer_root"),
+        (f"{B} ({A} {A} {A})", [[n2, 9]], {}, "no_integer_root"),
+        (f"({A} {B}) ({B} {C}) ({C} {A})", [[6, 15, 11]], {}, "no_integer_root"),
     ]
+    assert not any(a * a == 8 for a in range(1, 9)) and not any(a ** 3 == 9 for a in range(1, 10))
+    assert not any(a * b == 6 and b * c == 15 and c * a == 11 for a in range(1, 12) for b in range(1, 16) for c in range(1, 16))
     return out
+
+
+def shorter_sum_equations(rng_unused=None):
+    """the three systems of kind concatenation_shorter_than_its_parts as equations for the verified reference solver, which must call
+    each of them contradictory (Spec/Solve.v: every unknown part of a sum is at least 1)"""
+    def v(i):
+        return ["v", i]
+    return [[[["sum", [v(0), v(1)]], 1], [v(2), 3]],
+            [[v(2), 3], [["sum", [v(0), v(1), v(3)]], 2]],
+            [[["sum", [v(0), v(1), v(3)]], 5], [v(2), 3], [v(0), 4]]]
 
 
 def run_edges(ctx):
     import einx
     n = 0
+    for eqs, verdict in zip(shorter_sum_equations(), ctx.model.batch([sx(["solve_propagate", e]) for e in shorter_sum_equations()])):
+        if verdict != "contra":
+            ctx.tie_breaks.append({"correspondence": "reference solver: a sum of k unknown parts equal to less than k must be contradictory", "equations": eqs,
+                                   "verdict": verdict})
     for _ in range(6 if ctx.tier == "quick" else 200):
         for desc, shapes, kw, kind in edge_instances(ctx.rng):
             tensors = [types.SimpleNamespace(shape=tuple(s)) for s in shapes]
             rec = {"description": desc, "shapes": shapes, "kwargs": {k: repr(v) for k, v in kw.items()}}
             allowed = ("RankError", "AxisSizeError") + (("ValueError",) if kind == "size_not_a_positive_integer" else ())
-            for fn in ("solve_shapes", "solve_axes", "matches", "id"):
+            for fn in ("solve_shapes", "solve_axes", "matches") + (() if kind == "no_integer_root" else ("id",)):     # (an axis twice in one output is a SemanticError of id)
                 n += 1
                 try:
                     if fn == "id":
@@ -352,6 +377,50 @@ def run_edges(ctx):
                         ctx.report({"kind": "matches_raises_instead_of_false", "exc": cls, "case": kind}, {**rec, "message": str(e)[:200]})
                     elif cls not in allowed:
                         ctx.report({"kind": "unexpected_exception", "fn": fn, "exc": cls, "site": common.exc_site(e), "case": kind}, {**rec, "message": str(e)[:200]})
+    return n
+
+
+def bracket_group_probes(rng):
+    """operations in which a bracketed group of axes is flattened in one operand and written at root level in another: determined by
+    substitution when the root-level operand has a shape, under-determined when it is a tensor factory"""
+    out = []
+    for _ in range(4):
+        h, w, b, c = rng.choice([2, 3]), rng.choice([2, 3, 4]), rng.choice([2, 4]), rng.choice([3, 5])
+        x = np.arange(b * h * w).reshape(b, h * w) % 5
+        y = np.arange(h * w * c).reshape(h, w, c) % 3
+        exp = np.einsum("bhw,hwc->bc", x.reshape(b, h, w), y)
+        first_flat = rng.random() < 0.7
+        if first_flat:
+            out.append(("dot", "b ([h w]), [h w] c -> b c", [x, y], {}, ["ok", exp]))
+            out.append(("dot", "([h w]) b, [h w] c -> b c", [x.T.copy(), lambda shape: np.ones(shape)], {}, ["fail"]))
+        else:
+            out.append(("dot", "[h w] c, b ([h w]) -> b c", [y, x], {}, ["ok", exp]))
+            out.append(("dot", "[h w] c, ([h w]) b -> b c", [lambda shape: np.ones(shape), x.T.copy()], {}, ["fail"]))
+        out.append(("sum", "b ([h w]) -> b", [x], {"h": h}, ["ok", x.sum(axis=1)]))
+    return out
+
+
+def run_bracket_groups(ctx):
+    import einx
+    n = 0
+    for fn, desc, args, kw, exp in bracket_group_probes(ctx.rng):
+        n += 1
+        rec = {"fn": fn, "description": desc, "shapes": [list(np.shape(a)) if not callable(a) else "factory" for a in args], "kwargs": kw}
+        try:
+            r = common.with_alarm(40, getattr(einx, fn), desc, *args, **kw)
+            if exp[0] == "fail":
+                ctx.report({"kind": "accepts_underdetermined_system", "fn": fn, "case": "bracketed_group_flattened_and_at_root_level"},
+                           {**rec, "reported": str(np.shape(r))})
+            elif np.shape(r) != np.shape(exp[1]) or not np.array_equal(np.asarray(r), exp[1]):
+                ctx.report({"kind": "wrong_shapes", "fn": fn, "case": "bracketed_group_flattened_and_at_root_level"}, {**rec, "reported": np.asarray(r).tolist()})
+        except BaseException as e:  # noqa: BLE001
+            cls = common.classify_exc(e)
+            if exp[0] == "ok":
+                ctx.report({"kind": "rejects_determined_system", "fn": fn, "exc": cls, "site": common.exc_site(e), "case": "bracketed_group_flattened_and_at_root_level"},
+                           {**rec, "message": str(e)[:200]})
+            elif cls not in ("RankError", "AxisSizeError"):
+                ctx.report({"kind": "unexpected_exception", "fn": fn, "exc": cls, "site": common.exc_site(e), "case": "bracketed_group_flattened_and_at_root_level"},
+                           {**rec, "message": str(e)[:200]})
     return n
 
 
@@ -620,6 +689,7 @@ def run(ctx):
     for p, inst in list(zip(probs, insts))[:4]:
         ctx.sample({"description": inst[0], "shapes": inst[1], "kwargs": inst[2], "variant": p["variant"]})
     stats["edge_instances"] = run_edges(ctx)
+    stats["bracket_group_probes"] = run_bracket_groups(ctx)
     ctx.coverage.update({
         "evaluations": len(probs) * 3 + stats["op_level_calls"] + stats["edge_instances"],
         "rule": "generated (description, shapes-or-None, keyword subset) instances; variants consistent / contradicted keyword / contradicted "
